@@ -162,7 +162,7 @@ func scopes(reported map[string]bool) (full, pruned, altered map[string]cty.Valu
 	}
 	// names used as iteration variables in the families are also defined
 	// globally (with a recognisable value): they must be shadowed, never read.
-	for _, n := range []string{"k", "v", "w", "it", "b", "c"} {
+	for _, n := range []string{"k", "v", "w", "it", "b", "c", "d", "e", "f", "g", "x", "y"} {
 		if _, ok := full[n]; !ok {
 			full[n] = cty.StringVal("GLOBAL-" + n)
 			if reported[n] {
